@@ -172,7 +172,7 @@ def run(c):
                     ops.append("d,%d,%d" % (i, j))
         reqs.append("M 36 30 " + " ".join(ops[:1500]))
     exe = vlib.build_c(c.snap, "drv_sparse", "drv_sparse.c")
-    ans, crashes = vlib.run_driver(exe, reqs, prefix="R", timeout=300)
+    ans, crashes = vlib.run_driver(exe, reqs, prefix="R", timeout=240)
     for k, se in crashes[:8]:
         c.violation("sparse matrix operation sequence crashed: %s" % ans[k][:200], "sparse-crash",
                     {"stream": "sparse", "request": reqs[k][:2000], "stderr": se})
